@@ -16,7 +16,7 @@ VERIF = os.path.dirname(os.path.dirname(os.path.abspath(__file__)))
 REPO = os.environ.get("VERIF_REPO", "/repo")
 GO = "go1.26.8"
 TLA_DIR = os.path.join(VERIF, "tla")
-NCPU = os.cpu_count() or 4
+NCPU = int(os.environ.get("VERIF_JOBS") or os.cpu_count() or 4)
 
 _scratch = None
 
